@@ -52,9 +52,12 @@ def handle (j : Json) : Except String Json := do
   let defined ← (← getArr j "defined").toList.mapM parseQN
   let sigma ← (← getArr j "sigma").toList.mapM parseQN
   let types ← (← getArr j "types").toList.mapM parseTypes
+  -- the same table keyed by object id (what `model` uses)
+  let otypes ← match j.getObjVal? "otypes" with
+    | .ok v => (← v.getArr?).toList.mapM parseTypes
+    | .error _ => pure types
   let fuel ← getNat j "fuel"
-  let rootFix := match j.getObjValAs? Bool "rootfix" with | .ok b => b | .error _ => false
-  let M := mkCtx v11 n nodes infos defined rootFix
+  let M := mkCtx v11 n nodes infos defined
   let r := M.checkModel p
   let mJ := Json.mkObj (errJson' r.err ++ [
     ("precs", Json.arr (r.precs.map fun (w, e) => Json.arr #[w, e]).toArray),
@@ -65,6 +68,7 @@ def handle (j : Json) : Except String Json := do
         ("wit", Json.mkObj [("u", Json.arr (u.map symJson).toArray), ("c1", symJson c1), ("c2", symJson c2)])]
     | .unknown => Json.mkObj [("upa", "unknown")]
   return Json.mkObj [("m", mJ), ("o", oJ), ("edc", edcCheck types ps),
+    ("tie", M.tableCovers otypes p), ("edc_p", edcCheck otypes p),
     ("nsyms", (symsOf sigma ps).length)]
 
 end XsVerif.Driver.C15
